@@ -164,8 +164,8 @@ pub fn run_outcome(ctx: &Ctx) -> (&'static str, Outcome) {
     };
     let dir = ctx.scratch_dir(&prop.to_lowercase());
     let n = match prop {
-        "C01" | "C02" => ctx.budget(500, 30_000),
-        _ => ctx.budget(350, 20_000),
+        "C01" | "C02" => ctx.budget(3000, 60_000),
+        _ => ctx.budget(1500, 30_000),
     } as u64;
     let deadline = Duration::from_secs(ctx.tier.pick(75, 1200));
     let thorough = ctx.tier == Tier::Thorough;
